@@ -85,8 +85,11 @@ type stepRec struct {
 }
 
 func viaName(v Via) string {
-	if v == ViaHandler {
+	switch v {
+	case ViaHandler:
 		return "handler"
+	case ViaWire:
+		return "wire"
 	}
 	return "service"
 }
@@ -156,17 +159,70 @@ func slashHistories(run *evid.Run, cfg Cfg, kind string) {
 	if kind == "prop" {
 		histories = cfg.N(500, 6000)
 	}
+	slashLoop(run, r, kind, env, histories, steps,
+		func() Via {
+			if r.Intn(10) == 0 {
+				return ViaHandler
+			}
+			return ViaService
+		},
+		func() bool { env.FreshKeys(4); return true },
+		func() error { return env.Stack.Restart() })
+	run.Count("pairs_compared", env.Slash.Pairs)
+	run.Count("record_before_sign_checks", env.SignChecks())
+	if env.SignChecks() == 0 {
+		run.Inconclusive("record-before-sign monitor never ran")
+	}
+	if run.Get("released") == 0 {
+		run.Inconclusive("no signature was released")
+	}
+	slashWire(run, cfg, kind)
+}
+
+// slashWire is the wire slice: the same generator and oracle against the real daemon over TLS/gRPC,
+// with real restarts (SIGKILL + start) in between.  It notices edits to main.go's wiring.
+func slashWire(run *evid.Run, cfg Cfg, kind string) {
+	r := cfg.Rand("slash-wire-" + kind)
+	histories := cfg.N(8, 100)
+	w, err := NewWireRig(cfg, "wire-"+kind, 4*histories, nil)
+	if err != nil {
+		run.Inconclusive("cannot start daemon for the wire slice: " + err.Error())
+		return
+	}
+	defer w.Close()
+	env := NewWireEnv(run, w)
+	before := run.Get("released")
+	slashLoop(run, r, kind, env, histories, cfg.N(40, 80),
+		func() Via { return ViaWire },
+		func() bool { return env.WireKeys(4) },
+		func() error {
+			w.D.Kill()
+			if err := w.D.Start(); err != nil {
+				return err
+			}
+			return w.Dial("")
+		})
+	run.Count("wire_released", run.Get("released")-before)
+	run.Count("wire_pairs_compared", env.Slash.Pairs)
+	if run.Get("wire_released") == 0 {
+		run.Inconclusive("the wire slice released no signature")
+	}
+	if !w.D.Alive() {
+		run.Inconclusive("daemon died during the wire slice: " + w.D.LogTail(400))
+	}
+}
+
+func slashLoop(run *evid.Run, r *rand.Rand, kind string, env *Env, histories, steps int, pickVia func() Via, freshKeys func() bool, restart func() error) {
 	roots := [][]byte{Root32(0xaa), Root32(0xbb)}
 	doms := map[string][][]byte{
 		"att":  {Dom(DomainAttester, 0), Dom(DomainAttester, 7)},
 		"prop": {Dom(DomainProposer, 0), Dom(DomainProposer, 9)},
 	}[kind]
 	for h := 0; h < histories && run.NumViolations() < 5; h++ {
-		env.FreshKeys(4)
-		via := ViaService
-		if r.Intn(10) == 0 {
-			via = ViaHandler
+		if !freshKeys() {
+			break
 		}
+		via := pickVia()
 		wm := make([]oracle.WM, 4)
 		env.wm = wm
 		env.profile = "dense"
@@ -182,7 +238,7 @@ func slashHistories(run *evid.Run, cfg Cfg, kind string) {
 			p := r.Intn(100)
 			switch {
 			case p < restartPct:
-				if err := env.Stack.Restart(); err != nil {
+				if err := restart(); err != nil {
 					run.Inconclusive("restart failed: " + err.Error())
 					return
 				}
@@ -244,21 +300,13 @@ func slashHistories(run *evid.Run, cfg Cfg, kind string) {
 				hist = append(hist, rec)
 			}
 		}
-		if h < 2 {
+		if h < 2 && env.Wire == nil {
 			if len(hist) > 12 {
 				hist = hist[:12]
 			}
 			run.Sample(map[string]any{"history": h, "first_steps": hist})
 		}
 		run.Count("histories", 1)
-	}
-	run.Count("pairs_compared", env.Slash.Pairs)
-	run.Count("record_before_sign_checks", env.SignChecks())
-	if env.SignChecks() == 0 {
-		run.Inconclusive("record-before-sign monitor never ran")
-	}
-	if run.Get("released") == 0 {
-		run.Inconclusive("no signature was released")
 	}
 }
 
